@@ -140,13 +140,15 @@ NotLaws ==
   (a >= 0 /\ op = "not") =>
     LET r == NotW(w, a) IN r.res = (a ^^ (Pow2(w) - 1)) /\ r.def = 0 /\ r.undef = 0 /\ r.fl = 0
 
-\* n single-bit steps (the manual's loop) agree with the closed form, for every count
-RECURSIVE OrbitOK(_, _, _)
-OrbitOK(vv, cc, n) ==
+\* n single-bit steps (the manual's loop) agree with the closed form, for every count; oo is the OF that the
+\* count-1 rule gave for the step just taken (the value before that step is known here, not in the closed form)
+RECURSIVE OrbitOK(_, _, _, _)
+OrbitOK(vv, cc, oo, n) ==
   /\ ShiftResult(op, w, a, c, n, <<vv, cc>>) = Shift(op, w, a, c, n)
-  /\ (n = MaxCount \/ LET s == Step1(op, w, vv, cc) IN OrbitOK(s[1], s[2], n + 1))
+  /\ (n = 0 \/ FlagSet(Shift(op, w, a, c, n).fl, OF) = oo)
+  /\ (n = MaxCount \/ LET s == Step1(op, w, vv, cc) IN OrbitOK(s[1], s[2], Of1(op, w, vv, s[1], s[2]), n + 1))
 
-OrbitAgree == (a >= 0 /\ op \in ShiftOps) => OrbitOK(a, c, 0)
+OrbitAgree == (a >= 0 /\ op \in ShiftOps) => OrbitOK(a, c, FALSE, 0)
 
 \* what the property states about a single count, on the closed form
 ShiftLaws ==
@@ -160,7 +162,8 @@ ShiftLaws ==
                            /\ FlagSet(r.fl, PF) = Parity8(r.res % 256)
                            /\ (r.def & (SF + ZF + PF + CF)) = SF + ZF + PF + CF)
        /\ (~IsShift(op) => (r.def & (SF + ZF + PF + AF)) = 0 /\ (r.undef & (SF + ZF + PF + AF + CF)) = 0)
-       /\ ((r.def & OF) # 0) = (n = 1)
+       /\ (r.def & OF) # 0 /\ (r.undef & OF) = 0
+       /\ (op \in {"sar"} \/ (op = "shr" /\ n >= 2) => ~FlagSet(r.fl, OF))
        \* numeric meaning
        /\ (op = "sal" /\ n < w => r.res = (a * Pow2(n)) % Pow2(w))
        /\ (op = "shr" /\ n < w => r.res = a \div Pow2(n))
